@@ -95,8 +95,12 @@ fn one_ms<Pk: HKey, Ctx: ScriptContext>(out: &mut Out, ctx: CtxK, node: &Node, s
         node.locks(&mut af, &mut ol);
         let mut ages: Vec<u32> = vec![];
         for n in &ol { let c = msops::rel_canon(*n); ages.push(c); if c & 0xffff >= 1 { ages.push(c - 1); } }
+        // ... and the same values in the OTHER unit (bit 22 flipped), plus both units' extremes: the
+        // library's lock types are only partially ordered, an age of the other unit never implies a lock
+        let same: Vec<u32> = ages.clone();
+        for c in same { ages.push(c ^ 0x0040_0000); ages.push((c ^ 0x0040_0000) | 0xffff); }
         ages.sort(); ages.dedup();
-        for a in ages.into_iter().take(4) {
+        for a in ages.into_iter().take(12) {
             if let Some(rl) = miniscript::bitcoin::Sequence::from_consensus(a).to_relative_lock_time() {
                 let q = wire(catch_unwind(AssertUnwindSafe(|| p.clone().at_age(rl))));
                 out.line(&format!("J liftstate {} {} age:{} {}", ctx.name(), w, a, q), "ok");
@@ -104,8 +108,11 @@ fn one_ms<Pk: HKey, Ctx: ScriptContext>(out: &mut Out, ctx: CtxK, node: &Node, s
         }
         let mut lts: Vec<u32> = vec![];
         for n in &af { lts.push(*n); if *n > 1 { lts.push(n - 1); } }
+        // the other unit: a block height for a time lock and the reverse
+        let same: Vec<u32> = lts.clone();
+        for n in same { if n < 500_000_000 { lts.push(500_000_000 + n); lts.push(u32::MAX >> 1); } else { lts.push((n - 500_000_000).max(1)); lts.push(499_999_999); } }
         lts.sort(); lts.dedup();
-        for n in lts.into_iter().take(4) {
+        for n in lts.into_iter().take(12) {
             let lt = miniscript::bitcoin::absolute::LockTime::from_consensus(n);
             let q = wire(catch_unwind(AssertUnwindSafe(|| p.clone().at_lock_time(lt))));
             out.line(&format!("J liftstate {} {} lock:{} {}", ctx.name(), w, n, q), "ok");
